@@ -309,81 +309,107 @@ func c18Select(p *an.Prog, r *an.R) {
 	}
 	// the replacement nodes: constant true, or an exact branch filter for a single entry
 	nRepl := 0
-	ast.Inspect(d.Decl.Body, func(nd ast.Node) bool {
-		ue, ok := nd.(*ast.UnaryExpr)
-		if !ok || ue.Op != token.AND {
-			return true
+	// in doSelectRepoSet itself, and in helpers of the package it calls to build the replacement
+	for _, rd := range calleeDecls(p, d) {
+		rd := rd
+		gRepl := g
+		if rd != d {
+			gRepl = an.NewG(info, rd.Decl.Body)
 		}
-		cl, ok := ue.X.(*ast.CompositeLit)
-		if !ok {
-			return true
-		}
-		tn := an.TypeName(info.TypeOf(cl))
-		if !strings.HasSuffix(tn, "query.Const") && !strings.HasSuffix(tn, "query.Branch") {
-			return true
-		}
-		l, okL := g.Find(cl)
-		nRepl++
-		key := "search.doSelectRepoSet/replacement#" + itoa(nRepl)
-		if !okL {
-			r.Und("C18.R1", key, cl.Pos(), "replacement literal not in the CFG")
-			return true
-		}
-		r.Check(g.GuardedBy(l, allFact, killAll), "C18.R1", key+"/only-when-all-selected-repositories-match", cl.Pos(), "the replacement is built only under filteredAll", "a replacement for the repository filter is built although some selected shard may hold repositories that do not satisfy the filter (filteredAll not established)")
-		if strings.HasSuffix(tn, "query.Const") {
-			val := ""
-			if v := litField(cl, "Value"); v != nil {
-				if tv := info.Types[v]; tv.Value != nil {
-					val = tv.Value.String()
+		ast.Inspect(rd.Decl.Body, func(nd ast.Node) bool {
+			ue, ok := nd.(*ast.UnaryExpr)
+			if !ok || ue.Op != token.AND {
+				return true
+			}
+			cl, ok := ue.X.(*ast.CompositeLit)
+			if !ok {
+				return true
+			}
+			tn := an.TypeName(info.TypeOf(cl))
+			if !strings.HasSuffix(tn, "query.Const") && !strings.HasSuffix(tn, "query.Branch") {
+				return true
+			}
+			if rd != d && !strings.HasSuffix(tn, "query.Branch") {
+				return true // only replacement builders are followed, not every Const in a callee
+			}
+			l, okL := gRepl.Find(cl)
+			nRepl++
+			key := "search.doSelectRepoSet/replacement#" + itoa(nRepl)
+			if !okL {
+				r.Und("C18.R1", key, cl.Pos(), "replacement literal not in the CFG")
+				return true
+			}
+			underAll := false
+			if rd == d {
+				underAll = g.GuardedBy(l, allFact, killAll)
+			} else {
+				// the helper's result is used at its call sites in doSelectRepoSet: those must be under filteredAll
+				hobj, _ := info.Defs[rd.Decl.Name].(*types.Func)
+				sites := g.Locs(func(n ast.Node) bool { return hobj != nil && len(an.CallsTo(info, n, false, hobj)) > 0 })
+				underAll = len(sites) > 0
+				for _, sl := range sites {
+					if !g.GuardedBy(sl, allFact, killAll) {
+						underAll = false
+					}
 				}
 			}
-			r.Check(val == "true", "C18.R1", key+"/replaced-by-true", cl.Pos(), "a satisfied filter is replaced by the constant true", "a repository filter that all selected repositories satisfy is replaced by something other than the constant true")
-			return true
-		}
-		var cVar types.Object
-		exact, pat := false, false
-		if v := litField(cl, "Exact"); v != nil {
-			if tv := info.Types[v]; tv.Value != nil && tv.Value.String() == "true" {
-				exact = true
+			g := gRepl
+			r.Check(underAll, "C18.R1", key+"/only-when-all-selected-repositories-match", cl.Pos(), "the replacement is built only under filteredAll", "a replacement for the repository filter is built although some selected shard may hold repositories that do not satisfy the filter (filteredAll not established)")
+			if strings.HasSuffix(tn, "query.Const") {
+				val := ""
+				if v := litField(cl, "Value"); v != nil {
+					if tv := info.Types[v]; tv.Value != nil {
+						val = tv.Value.String()
+					}
+				}
+				r.Check(val == "true", "C18.R1", key+"/replaced-by-true", cl.Pos(), "a satisfied filter is replaced by the constant true", "a repository filter that all selected repositories satisfy is replaced by something other than the constant true")
+				return true
 			}
-		}
-		if v := litField(cl, "Pattern"); v != nil {
-			if s1, ok := ast.Unparen(v).(*ast.SelectorExpr); ok && s1.Sel.Name == "Branch" {
-				if ix, ok := ast.Unparen(s1.X).(*ast.IndexExpr); ok {
-					if tv := info.Types[ix.Index]; tv.Value != nil && tv.Value.String() == "0" {
-						if s2, ok := ast.Unparen(ix.X).(*ast.SelectorExpr); ok && s2.Sel.Name == "List" {
-							if id, ok := ast.Unparen(s2.X).(*ast.Ident); ok {
-								cVar = info.ObjectOf(id)
-								pat = true
+			var cVar types.Object
+			exact, pat := false, false
+			if v := litField(cl, "Exact"); v != nil {
+				if tv := info.Types[v]; tv.Value != nil && tv.Value.String() == "true" {
+					exact = true
+				}
+			}
+			if v := litField(cl, "Pattern"); v != nil {
+				if s1, ok := ast.Unparen(v).(*ast.SelectorExpr); ok && s1.Sel.Name == "Branch" {
+					if ix, ok := ast.Unparen(s1.X).(*ast.IndexExpr); ok {
+						if tv := info.Types[ix.Index]; tv.Value != nil && tv.Value.String() == "0" {
+							if s2, ok := ast.Unparen(ix.X).(*ast.SelectorExpr); ok && s2.Sel.Name == "List" {
+								if id, ok := ast.Unparen(s2.X).(*ast.Ident); ok {
+									cVar = info.ObjectOf(id)
+									pat = true
+								}
 							}
 						}
 					}
 				}
 			}
-		}
-		r.Check(exact && pat, "C18.R4", key+"/branch-filter-exact-and-from-the-single-entry", cl.Pos(), "the replacement is Branch{Pattern: List[0].Branch, Exact: true}", "the branch filter that replaces a BranchesRepos filter is not the exact branch of its single entry: it selects documents of other branches")
-		single := cVar != nil && g.GuardedBy(l, func(cond ast.Expr, truth bool) bool {
-			be, ok := ast.Unparen(cond).(*ast.BinaryExpr)
-			if !ok {
-				return false
-			}
-			c, ok := ast.Unparen(be.X).(*ast.CallExpr)
-			if !ok || !an.IsBuiltin(info, c, "len") {
-				return false
-			}
-			s, ok := ast.Unparen(c.Args[0]).(*ast.SelectorExpr)
-			if !ok || s.Sel.Name != "List" || !isIdentOf(info, s.X, cVar) {
-				return false
-			}
-			tv := info.Types[be.Y]
-			if tv.Value == nil || tv.Value.String() != "1" {
-				return false
-			}
-			return (be.Op == token.NEQ && !truth) || (be.Op == token.EQL && truth)
-		}, nil)
-		r.Check(single, "C18.R4", key+"/only-for-a-single-branch-entry", cl.Pos(), "the replacement happens only when len(List) == 1", "a BranchesRepos filter with several (branch, repositories) entries is replaced by the branch of its first entry: repositories of the other entries are searched on the wrong branch")
-		return true
-	})
+			r.Check(exact && pat, "C18.R4", key+"/branch-filter-exact-and-from-the-single-entry", cl.Pos(), "the replacement is Branch{Pattern: List[0].Branch, Exact: true}", "the branch filter that replaces a BranchesRepos filter is not the exact branch of its single entry: it selects documents of other branches")
+			single := cVar != nil && g.GuardedBy(l, func(cond ast.Expr, truth bool) bool {
+				be, ok := ast.Unparen(cond).(*ast.BinaryExpr)
+				if !ok {
+					return false
+				}
+				c, ok := ast.Unparen(be.X).(*ast.CallExpr)
+				if !ok || !an.IsBuiltin(info, c, "len") {
+					return false
+				}
+				s, ok := ast.Unparen(c.Args[0]).(*ast.SelectorExpr)
+				if !ok || s.Sel.Name != "List" || !isIdentOf(info, s.X, cVar) {
+					return false
+				}
+				tv := info.Types[be.Y]
+				if tv.Value == nil || tv.Value.String() != "1" {
+					return false
+				}
+				return (be.Op == token.NEQ && !truth) || (be.Op == token.EQL && truth)
+			}, nil)
+			r.Check(single, "C18.R4", key+"/only-for-a-single-branch-entry", cl.Pos(), "the replacement happens only when len(List) == 1", "a BranchesRepos filter with several (branch, repositories) entries is replaced by the branch of its first entry: repositories of the other entries are searched on the wrong branch")
+			return true
+		})
+	}
 	r.Floor("C18.R1.replacements", 2, nRepl)
 	r.Floor("C18.R1.rewrites", 2, nStore)
 	// R10: the (any, all) accumulator visits every repository of the shard
@@ -801,6 +827,33 @@ func c18List(p *an.Prog, r *an.R) {
 	}
 	r.Fn(an.FuncName(f))
 	info := d.Pkg.TypesInfo
+	// the merge of one shard's answer may live in a helper of the package that List calls
+	hasStore := func(x *an.DeclInfo) bool {
+		hit := false
+		ast.Inspect(x.Decl.Body, func(n ast.Node) bool {
+			as, ok := n.(*ast.AssignStmt)
+			if !ok || len(as.Lhs) != 1 {
+				return true
+			}
+			if ix, ok := ast.Unparen(as.Lhs[0]).(*ast.IndexExpr); ok {
+				if mt, ok := info.TypeOf(ix.X).Underlying().(*types.Map); ok && strings.HasSuffix(an.TypeName(mt.Elem()), "RepoListEntry") {
+					if b, ok := mt.Key().Underlying().(*types.Basic); ok && b.Kind() == types.String {
+						hit = true
+					}
+				}
+			}
+			return true
+		})
+		return hit
+	}
+	if !hasStore(d) {
+		for _, x := range calleeDecls(p, d) {
+			if x != d && hasStore(x) {
+				d = x
+				r.Fn("search." + x.Decl.Name.Name)
+			}
+		}
+	}
 	g := an.NewG(info, d.Decl.Body)
 	// the map keyed by repository name holding *RepoListEntry
 	var uniq types.Object
